@@ -144,7 +144,7 @@ fn num(v: &Val, f: &str) -> Option<u128> {
 
 pub fn run(ctx: &Ctx) -> i32 {
     let mut report = ctx.report("C08", "exploration");
-    report.rule = "scenarios begin(token) -> commit(token, final) (and interleaved pairs of transactions) against the simulated terminal: configured pre-authorisation amount over {0, 1, 10^k-1/10^k/10^k+1, 10^12-1, random}, final amount over {0, pre-1, pre, pre+1, 2^32-1, 2^32, 2^32+1, u64::MAX, u64::MAX-1, 2^63+pre, random}, currency 0..9999, tokens = CP437 text (any byte, no trailing NUL) of 0..200 characters, a third of them built around string literals harvested from the repository's own sources (a token equal to / starting with / ending in a constant of the implementation), first receipt number 1..9999, the terminal's status fields over their full BCD ranges or absent; in a third of the scenarios a card is read before / between the transaction calls, its status information carrying an amount, a receipt number and a maximum pre-authorisation amount (TLV 1F0B) below / at / above the configured amount; in a quarter of the scenarios the link fails once during the reservation (close/garbage/silence/NACK/reply-then-close at a random packet), so that the client re-sends it and the terminal issues a second receipt number. Oracle: the requests the terminal decodes with the reference codec: Reservation{amount=cfg, currency=cfg, reference 1F63=token}; PartialReversal{87=issued receipt, 04=max(pre-final,0) computed in u128, 49=cfg, reference 1F63=token} (payment type and reference prefix are recorded, not judged: the statement does not mention them); ledger balance reserved-released=min(pre,final); summary fields numerically equal to the status information of that commit (a third of the second commits are completed without any: no figures may be handed back then). Non-trivial = scenario in which the commit reached the terminal; distinct by hash of (config, token, final, receipt, status fields).".into();
+    report.rule = "scenarios begin(token) -> commit(token, final) (and interleaved pairs of transactions) against the simulated terminal: configured pre-authorisation amount over {0, 1, 10^k-1/10^k/10^k+1, 10^12-1, random}, final amount over {0, pre-1, pre, pre+1, 2^32-1, 2^32, 2^32+1, u64::MAX, u64::MAX-1, 2^63+pre, random}, currency 0..9999, tokens = CP437 text (any byte, no trailing NUL) of 0..200 characters, a third of them built around string literals harvested from the repository's own sources (a token equal to / starting with / ending in a constant of the implementation), first receipt number 1..9999, the terminal's status fields over their full BCD ranges or absent; in a third of the scenarios a card is read before / between the transaction calls, its status information carrying an amount, a receipt number and a maximum pre-authorisation amount (TLV 1F0B) below / at / above the configured amount; in a quarter of the scenarios the link fails once during the reservation (close/garbage/silence/NACK/reply-then-close at a random packet), so that the client re-sends it and the terminal issues a second receipt number. Oracle: the requests the terminal decodes with the reference codec: Reservation{amount=cfg, currency=cfg, reference 1F63=token}; PartialReversal{87=issued receipt, 04=max(pre-final,0) computed in u128, 49=cfg, reference 1F63=token} (payment type and reference prefix are recorded, not judged: the statement does not mention them); ledger balance reserved-released=min(pre,final); summary fields numerically equal to the status information of that commit (a third of the second commits are completed without any: no figures may be handed back then; a fifth of the commits receive two status informations, the earlier one with other figures: the last one counts). Non-trivial = scenario in which the commit reached the terminal; distinct by hash of (config, token, final, receipt, status fields).".into();
     report.exhaustive = Some(false);
     report.assumptions = vec!["string formatting of date/time/terminal id beyond numeric equality is not judged".into(), "64-bit usize (amounts are usize in the configuration)".into()];
     let schema = Arc::new(refcodec::zvt_schema());
@@ -228,18 +228,31 @@ fn one(r: &mut Report, rng: &mut Rng, schema: &Arc<refcodec::layout::Schema>, di
         }
     }
     let mut statuses = vec![];
+    let mut r_two_statuses = 0u64;
     for (i, (t, f)) in order.iter().enumerate() {
         let call = sc.calls.len() + 2;
         let st = status(rng);
-        let pre_pkts = match rng.below(4) {
+        let mut pre_pkts = match rng.below(4) {
             0 => vec![Pre::Intermediate { status: 0x0c, timeout: 0 }],
             1 => vec![Pre::PrintLine("Beleg".into())],
             _ => vec![],
         };
+        // now and then the terminal sends two status informations within the one commit: an earlier one with other
+        // figures (with or without a receipt number), then the final one (with or without) - the last one counts
+        let no_status = i > 0 && rng.chance(1, 3);
+        let two_statuses = !no_status && rng.chance(1, 5);
+        let final_without_receipt = two_statuses && rng.chance(1, 2);
+        if two_statuses {
+            let other = status(rng);
+            let rc = if rng.chance(2, 3) { Some(1 + rng.below(9999)) } else { None };
+            pre_pkts.push(Pre::FullStatus(other, rc));
+        }
         // now and then a later commit is completed by the terminal without any status information: there is nothing
         // to reproduce then, in particular not what an earlier commit reported
-        let no_status = i > 0 && rng.chance(1, 3);
-        sc.plan.push(call, Cmd::PartialReversal, ExPlan { pre: pre_pkts, status: Some(st.clone()), result: if no_status { ExResult::NoStatus } else { ExResult::Normal }, ..ExPlan::default() });
+        sc.plan.push(call, Cmd::PartialReversal, ExPlan { pre: pre_pkts, status: Some(st.clone()), result: if no_status { ExResult::NoStatus } else { ExResult::Normal }, final_status_without_receipt: final_without_receipt, ..ExPlan::default() });
+        if two_statuses {
+            r_two_statuses += 1;
+        }
         statuses.push(if no_status { None } else { Some(st) });
         sc.calls.push(Call::Commit(t.clone(), *f));
         let _ = i;
@@ -259,6 +272,7 @@ fn one(r: &mut Report, rng: &mut Rng, schema: &Arc<refcodec::layout::Schema>, di
     if with_cards {
         r.count("scenarios_with_card_reads_in_between", 1);
     }
+    r.count("commits_with_two_status_informations", r_two_statuses);
     let commits_reached = tr.requests.iter().filter(|q| q.cmd == Cmd::PartialReversal).count();
     r.case(fnv(format!("{cfg:?}|{t1}|{t2}|{f1}|{f2}|{}|{statuses:?}", sc.first_receipt).as_bytes()), commits_reached > 0);
     let case = || case_json(&sc, &tr);
